@@ -13,7 +13,7 @@ def Node.stat (n : Node) : String × Rat × Rat × Bool := (n.id, n.w, n.h, n.vi
 structure StatEq (g g' : G) : Prop where
   size : g.nodes.size ≤ g'.nodes.size
   stat : ∀ i, i < g.nodes.size → (g'.node i).stat = (g.node i).stat
-  fresh : ∀ i, g.nodes.size ≤ i → i < g'.nodes.size → (g'.node i).virt = true
+  fresh : ∀ i, g.nodes.size ≤ i → i < g'.nodes.size → (g'.node i).virt = true ∧ (g'.node i).w = 0 ∧ (g'.node i).h = 0
 
 theorem StatEq.refl (g : G) : StatEq g g := ⟨Nat.le_refl _, fun _ _ => rfl, fun i h1 h2 => by omega⟩
 
@@ -24,7 +24,8 @@ theorem StatEq.trans {a b c : G} (h1 : StatEq a b) (h2 : StatEq b c) : StatEq a 
     · have := h2.stat i hb
       have hv := h1.fresh i hi1 hb
       simp only [Node.stat, Prod.mk.injEq] at this
-      rw [this.2.2.2, hv]
+      rw [this.2.2.2, this.2.1, this.2.2.1]
+      exact hv
     · exact h2.fresh i (by omega) hi2
 
 /-- states with the same node table -/
@@ -115,7 +116,7 @@ theorem statEq_breakEdge (g : G) (e v : Nat) : StatEq g (breakEdge g e v).1 := b
     · have := patchIn_stat e g.edges.size
         { id := "V" ++ toString v, layer := g.layerOf (g.edge e).src + 1, virt := true, ins := [e], outs := [g.edges.size] }
       simp only [Node.stat, Prod.mk.injEq] at this
-      simpa using this.2.2.2
+      exact ⟨by simpa using this.2.2.2, by simpa using this.2.1, by simpa using this.2.2.1⟩
     · simp
 
 theorem statEq_breakLongEdges_go : ∀ (fuel i v : Nat) (g g' : G), breakLongEdges.go fuel i v g = .ok g' → StatEq g g'
